@@ -44,7 +44,7 @@ CHECKS = [
     C("C04", "exploration", CLI + " + AddressSanitizer, valgrind memcheck and Miri (thorough)",
       "Random bytes, structure-aware and byte-level mutants of generated streams and of the 18 shipped files, plus directed inputs for every panic site known to be reachable from input, through 9 modes x options x {file, pipe}: any terminating signal, panic text, exit status outside {0,1,N}, sanitizer report, logical no-progress state or CPU time beyond a bound proportional to the input size is a violation. Thorough: 150k executions of the exact shipped profile, 30k under ASan, 400 under memcheck, the unsafe sites under Miri.",
       "Sampled inputs; hang decided by /proc (threads asleep, no CPU progress), wall clock only triggers the inspection."),
-    C("C05", "exploration", CLI + " under seeded schedule perturbation (hook H1), arrival orders measured with hook H2",
+    C("C05", "exploration", CLI + " under seeded schedule perturbation (hook H1), arrival orders measured with hook H2; ThreadSanitizer build in the thorough tier",
       "Multi-link inputs with several errors at the same offset and > 20 errors, each run K times (12 quick / 80 thorough) under distinct perturbation schedules incl. stalled validators / stalled collector; stderr error order, stdout, statistics bytes and exit status must equal the unperturbed run. A case only counts if >= 3 distinct pre-sort arrival orders were observed. Stratified variants: input ending inside the last payload whose RDH also has errors, link filter + ignored -o on > 100 matching packets, storms of 6000 (with context) / 20 000 (muted) errors; stalls also of the statistics forwarder, analysis thread and reader.",
       "Perturbation only at the existing hand-off points; explores many, not all, interleavings."),
     C("C06", "exploration", CLI + " + in-process single-threaded pass: per-link normalised error lists compared across layouts",
@@ -65,7 +65,7 @@ CHECKS = [
     C("C16", "exploration", CLI + ": exit status / accounting contract table",
       "Contract table (clean, k errors, mid-stream fatal, custom-check failure, statistics mismatch also muted, missing / empty / short / non-ALICE input, 16 invalid option combinations (all of them in every such case), views / filtered writing with non-fatal errors, storms of 3000..20000 errors (cap 1025..5000, fatal error behind them), statistics extension differing in case) x N values; totals in report = statistics = displayed; -m, -w (leading code, prefixes of other codes), -e, -e together with -w.",
       "Sampled configurations."),
-    C("C17", "fault_enumeration", "process monitor (/proc) + schedule perturbation (H1): stop conditions at logical instants",
+    C("C17", "fault_enumeration", "process monitor (/proc) + schedule perturbation (H1): stop conditions at logical instants; ThreadSanitizer build in the thorough tier",
       "SIGINT/SIGTERM after chunk k of the input or n bytes of output, stdout closed after n bytes (views, filtered data, -S stdout), error cap, fatal framing error at packet i with stalled threads / full queues: the process must exit (no-progress criterion for deadlocks, CPU-time bound for busy loops), not by signal, without panic, status in {0,1,N}; scenarios include an ignored -o next to a check/view on a 16 000-packet link and 20 000 packets of filtered data to a closed stdout; a partial -o file must be a whole-packet prefix of the expected output. A pipe producer that goes quiet for 0.7-1.6 s after the signal / at a random chunk; 700 ms stalls; fatal error in packet 0; scale cases: a 640 000-packet pipe must be cut short (not consumed completely) by cap values 65..4097 and by an early closed stdout.",
       "Single stop signal, delivered once the tool has installed its handler (SigCgt); upstream eventually delivers or closes (it may go quiet for up to 1.6 s); thorough tier on the exact shipped profile."),
     C("C18", "fault_enumeration", CLI + ": metamorphic prefix vs full run over enumerated cut positions",
